@@ -29,10 +29,11 @@ _TOKEN_RE = re.compile(r'''
 ''', re.X)
 
 class Tok:
-    __slots__ = ('kind', 'text')
-    def __init__(self, kind, text):
+    __slots__ = ('kind', 'text', 'joint')
+    def __init__(self, kind, text, joint=False):
         self.kind = kind      # ident | lit | lifetime | punct
         self.text = text
+        self.joint = joint    # '<' / '>' printed immediately before the same character (`<<`, `>>`)
     def __repr__(self):
         return 'Tok(%s,%r)' % (self.kind, self.text)
     def is_p(self, t):
@@ -80,7 +81,7 @@ def lex(text):
         elif k in ('open', 'close'):
             out.append(Tok(k, t))
         else:
-            out.append(Tok('punct', t))
+            out.append(Tok('punct', t, joint=(t in '<>' and pos < n and text[pos] == t)))
     return out
 
 def tree(tokens):
@@ -105,43 +106,59 @@ def parse(text):
     return tree(lex(text))
 
 def render(items, sep=' '):
-    """Flat one-line rendering of a token-tree list."""
+    """Flat one-line rendering of a token-tree list (`<<` / `>>` stay adjacent exactly where rustc printed them so)."""
     out = []
-    for it in items:
+    for idx, it in enumerate(items):
         if isinstance(it, Group):
             out.append(it.delim + ' ' + render(it.items) + ' ' + _CLOSE[it.delim])
+            out.append(sep)
         else:
             out.append(it.text)
-    return sep.join(out)
+            nxt = items[idx + 1] if idx + 1 < len(items) else None
+            if it.kind == 'punct' and it.joint and nxt is not None and not isinstance(nxt, Group) and nxt.text == it.text:
+                continue
+            out.append(sep)
+    if out and out[-1] == sep:
+        out.pop()
+    return ''.join(out)
 
 def render_pretty(items, indent=0):
     """Multi-line rendering: a newline after ';' and ',' at brace level and around brace groups."""
     lines = []
     cur = []
     pad = '    ' * indent
+    glue = [False]
     def flush():
         if cur:
             lines.append(pad + ' '.join(cur))
             del cur[:]
-    for it in items:
+        glue[0] = False
+    def push(text):
+        if glue[0] and cur:
+            cur[-1] = cur[-1] + text
+        else:
+            cur.append(text)
+        glue[0] = False
+    for idx, it in enumerate(items):
         if isinstance(it, Group):
             if it.delim == '{':
                 inner = render_pretty(it.items, indent + 1)
                 if not inner.strip():
-                    cur.append('{ }')
+                    push('{ }')
                 else:
-                    cur.append('{')
+                    push('{')
                     flush()
                     lines.append(inner)
-                    cur.append('}')
+                    push('}')
                     # keep `} else {`, `};`, `},` on the same line: do not flush here
             else:
-                cur.append(it.delim + ' ' + render(it.items) + ' ' + _CLOSE[it.delim])
+                push(it.delim + ' ' + render(it.items) + ' ' + _CLOSE[it.delim])
         else:
-            cur.append(it.text)
-            if it.kind == 'punct' and it.text in (';',):
-                flush()
-            elif it.kind == 'punct' and it.text == ',':
+            push(it.text)
+            nxt = items[idx + 1] if idx + 1 < len(items) else None
+            if it.kind == 'punct' and it.joint and nxt is not None and not isinstance(nxt, Group) and nxt.text == it.text:
+                glue[0] = True
+            elif it.kind == 'punct' and it.text in (';', ','):
                 flush()
     flush()
     return '\n'.join(lines)
